@@ -48,6 +48,14 @@ theorem vec_step_sim (t : List Int) (w : WVec) (h : Rel t w) (op : VOp) :
   obtain ⟨hlen, hcap, hel⟩ := h
   cases op with
   | len => simp [wasmVecStep, tsVecStep, expectW, hlen]; exact ⟨hlen, hcap, hel⟩
+  | reserve n =>
+    obtain ⟨r1, _, r3, r4⟩ := wReserve_spec w n.toNat hcap
+    refine ⟨by simp [wasmVecStep, tsVecStep, expectW], fun _ => ?_⟩
+    simp only [wasmVecStep, tsVecStep]
+    refine ⟨by rw [r1]; exact hlen, by rw [r1]; exact r3, ?_⟩
+    intro i x hx
+    have hlt : i < t.length := (List.getElem?_eq_some_iff.mp hx).1
+    rw [r4 i (by omega)]; exact hel i x hx
   | push v =>
     obtain ⟨r1, r2, r3, r4⟩ := wReserve_spec w (w.len + 1) hcap
     refine ⟨by simp [wasmVecStep, tsVecStep, expectW], fun _ => ?_⟩
@@ -183,6 +191,7 @@ theorem tsVecStep_small (t : List Int) (ht : ∀ x ∈ t, InI31 x) (op : VOp)
     exact ht _ (List.getElem_mem hi)
   cases op with
   | len => simp [tsVecStep, expectW]; exact ht
+  | reserve n => simp [tsVecStep, expectW]; exact ht
   | push v =>
     simp only [tsVecStep, expectW]
     refine ⟨?_, fun _ => trivial⟩
@@ -279,6 +288,201 @@ theorem vec_fail_coincide (ops : List VOp) :
   · have : (tsVecRun [] ops)[k]? = none := List.getElem?_eq_none (by omega)
     rw [this]
     cases ops[k]? <;> simp
+
+/-! ## 4b. The remaining `Vec` builtins: `of`, `withCapacity`, `capacity`, `reserve`, `eq` -/
+
+theorem rel_of (v : Int) : Rel (tsVecOf v) (wasmVecOf v) := by
+  refine ⟨rfl, by simp [wasmVecOf], ?_⟩
+  intro i x hx
+  cases i with
+  | zero => simp [tsVecOf] at hx; subst hx; simp [wasmVecOf]
+  | succ i => simp [tsVecOf] at hx
+
+theorem rel_withCapacity (n : Int) (w : WVec) (h : wasmVecWithCapacity n = some w) : Rel [] w := by
+  unfold wasmVecWithCapacity at h
+  split at h
+  · cases h
+  · cases h; exact ⟨rfl, by simp, by intro i v hv; simp at hv⟩
+
+/-- `capacity` is only a hint, but on both sides it is never below the length. -/
+theorem capacity_ge_length (t : List Int) (w : WVec) (h : Rel t w) :
+    t.length ≤ tsCapacity t ∧ t.length ≤ wasmCapacity w := by
+  refine ⟨Nat.le_refl _, ?_⟩
+  unfold wasmCapacity; rw [← h.1]; exact h.2.1
+
+/-- `reserve n` makes room for `n` elements on the WebAssembly side and changes nothing visible. -/
+theorem reserve_capacity (w : WVec) (n : Int) (h : w.len ≤ w.data.length) :
+    n ≤ wasmCapacity (wasmVecStep w (.reserve n)).1 := by
+  obtain ⟨_, r2, _, _⟩ := wReserve_spec w n.toNat h
+  simp only [wasmVecStep, wasmCapacity]; omega
+
+theorem rel_take (t : List Int) (w : WVec) (h : Rel t w) :
+    w.data.take w.len = t.map (fun v => some (i31wrap v)) := by
+  obtain ⟨hlen, hcap, hel⟩ := h
+  apply List.ext_getElem?
+  intro i
+  rw [List.getElem?_take, List.getElem?_map]
+  by_cases hi : i < w.len
+  · rw [if_pos hi]
+    have hi' : i < t.length := by omega
+    rw [hel i t[i] (List.getElem?_eq_getElem hi'), List.getElem?_eq_getElem hi']; rfl
+  · rw [if_neg hi, List.getElem?_eq_none (by omega)]; rfl
+
+theorem map_some_eq_iff (a b : List Int) : (a.map some = b.map some) ↔ a = b := by
+  induction a generalizing b with
+  | nil => cases b <;> simp
+  | cons x xs ih => cases b with
+    | nil => simp
+    | cons y ys => simp [ih ys]
+
+theorem wasmVecEqLoop_take (n : Nat) : ∀ (a b : List (Option Int)), n ≤ a.length → n ≤ b.length →
+    wasmVecEqLoop n a b = decide (a.take n = b.take n) := by
+  induction n with
+  | zero => intro a b _ _; simp [wasmVecEqLoop]
+  | succ n ih =>
+    intro a b ha hb
+    cases a with
+    | nil => simp at ha
+    | cons x xs =>
+      cases b with
+      | nil => simp at hb
+      | cons y ys =>
+        simp only [wasmVecEqLoop, List.take_succ_cons, List.cons.injEq]
+        by_cases hxy : x = y
+        · subst hxy; simp [ih xs ys (by simpa using ha) (by simpa using hb)]
+        · simp [hxy]
+
+theorem tsVecEqLoop_eq (a b : List Int) (h : a.length = b.length) :
+    tsVecEqLoop a b = decide (a = b) := by
+  induction a generalizing b with
+  | nil => cases b <;> simp_all [tsVecEqLoop]
+  | cons x xs ih =>
+    cases b with
+    | nil => simp at h
+    | cons y ys =>
+      simp only [tsVecEqLoop, List.cons.injEq]
+      by_cases hxy : x = y
+      · subst hxy; simp [ih ys (by simpa using h)]
+      · simp [hxy]
+
+/-- TypeScript `Vec.eq` decides list equality (or identity) — for ALL argument values. -/
+theorem tsVecEq_spec (same : Bool) (a b : List Int) (hs : same = true → a = b) :
+    tsVecEq same a b = b2i (decide (a = b)) := by
+  unfold tsVecEq
+  by_cases h1 : same = true
+  · simp [h1, hs h1, b2i]
+  · by_cases hl : a.length = b.length
+    · simp [h1, hl, tsVecEqLoop_eq a b hl]
+    · have : a ≠ b := fun h => hl (by rw [h])
+      simp [h1, hl, this, b2i]
+
+/-- **`Vec.eq`, all arguments**: the WebAssembly answer on the representations equals the
+TypeScript answer on the i31 images of the two arrays. -/
+theorem vec_eq_refines (same : Bool) (ta tb : List Int) (wa wb : WVec) (ha : Rel ta wa)
+    (hb : Rel tb wb) :
+    wasmVecEq same wa wb = tsVecEq same (ta.map i31wrap) (tb.map i31wrap) := by
+  unfold wasmVecEq tsVecEq
+  by_cases h1 : same = true
+  · simp [h1]
+  · simp only [h1, if_false, List.length_map, Bool.false_eq_true]
+    rw [ha.1, hb.1]
+    by_cases hl : ta.length = tb.length
+    · simp only [hl, ne_eq, not_true_eq_false, if_false]
+      rw [tsVecEqLoop_eq _ _ (by simp [hl])]
+      have h2 := wasmVecEqLoop_take tb.length wa.data wb.data (by rw [← hl, ← ha.1]; exact ha.2.1)
+        (by rw [← hb.1]; exact hb.2.1)
+      have e1 := rel_take ta wa ha
+      have e2 := rel_take tb wb hb
+      rw [ha.1, hl] at e1; rw [hb.1] at e2
+      rw [h2, e1, e2]
+      congr 1
+      have := map_some_eq_iff (ta.map i31wrap) (tb.map i31wrap)
+      simp only [List.map_map] at this
+      have e : (fun v => some (i31wrap v)) = (some ∘ i31wrap : Int → Option Int) := rfl
+      rw [e]
+      simp [this]
+    · simp [hl]
+
+theorem map_i31wrap_id (t : List Int) (h : ∀ x ∈ t, InI31 x) : t.map i31wrap = t := by
+  induction t with
+  | nil => rfl
+  | cons x xs ih =>
+    simp only [List.map_cons]
+    rw [i31wrap_id (h x List.mem_cons_self), ih (fun y hy => h y (List.mem_cons_of_mem _ hy))]
+
+/- Full-strength statement (FALSE, C04-F5): wasmVecEq same wa wb = tsVecEq same ta tb -/
+
+/-- `[1073741824].eq([-1073741824])`: equal after i31 truncation, different in TypeScript. -/
+theorem vec_eq_agree_counterexample :
+    Rel [1073741824] (wasmVecOf 1073741824) ∧ Rel [-1073741824] (wasmVecOf (-1073741824)) ∧
+      wasmVecEq false (wasmVecOf 1073741824) (wasmVecOf (-1073741824)) ≠
+        tsVecEq false [1073741824] [-1073741824] := by
+  refine ⟨rel_of _, rel_of _, by decide⟩
+
+/-- **`vec_eq_agree` (partial: 31-bit elements)**: for all pairs of vectors — equal, prefix,
+longer, shorter, empty — both runtimes give the same answer. -/
+theorem vec_eq_agree_partial (same : Bool) (ta tb : List Int) (wa wb : WVec) (ha : Rel ta wa)
+    (hb : Rel tb wb) (sa : ∀ x ∈ ta, InI31 x) (sb : ∀ x ∈ tb, InI31 x) :
+    wasmVecEq same wa wb = tsVecEq same ta tb := by
+  rw [vec_eq_refines same ta tb wa wb ha hb, map_i31wrap_id ta sa, map_i31wrap_id tb sb]
+
+example : tsVecEq false [] [5] = 0 ∧ tsVecEq false [5] [5, 6] = 0 ∧ tsVecEq false [5, 6] [5, 6] = 1 := by
+  decide
+
+/-! ## 4c. `Str.concat` and string `==` -/
+
+theorem copyLoop_spec (cs : List Nat) : ∀ (pre : List Nat) (k : Nat),
+    copyLoop (pre ++ List.replicate (cs.length + k) 0) pre.length cs =
+      pre ++ cs ++ List.replicate k 0 := by
+  induction cs with
+  | nil => intro pre k; simp [copyLoop]
+  | cons c cs ih =>
+    intro pre k
+    simp only [copyLoop, List.length_cons]
+    have hset : (pre ++ List.replicate (cs.length + 1 + k) 0).set pre.length c =
+        (pre ++ [c]) ++ List.replicate (cs.length + k) 0 := by
+      rw [show cs.length + 1 + k = (cs.length + k) + 1 by omega, List.replicate_succ]
+      simp [List.set_append]
+    rw [hset]
+    have := ih (pre ++ [c]) k
+    simp only [List.length_append, List.length_singleton] at this
+    rw [this]; simp
+
+/-- **`Str.concat` agrees**: the two copy loops of the WebAssembly runtime build `a ++ b`. -/
+theorem concat_agree (a b : List Nat) : wasmStrConcat a b = tsStrConcat a b := by
+  unfold wasmStrConcat tsStrConcat
+  have h1 := copyLoop_spec a [] b.length
+  simp only [List.nil_append, List.length_nil] at h1
+  rw [h1]
+  have h2 := copyLoop_spec b a 0
+  simp only [Nat.add_zero, List.replicate_zero, List.append_nil] at h2
+  exact h2
+
+theorem wasmStrEqLoop_eq (a b : List Nat) (h : a.length = b.length) :
+    wasmStrEqLoop a b = decide (a = b) := by
+  induction a generalizing b with
+  | nil => cases b <;> simp_all [wasmStrEqLoop]
+  | cons x xs ih =>
+    cases b with
+    | nil => simp at h
+    | cons y ys =>
+      simp only [wasmStrEqLoop, List.cons.injEq]
+      by_cases hxy : x = y
+      · subst hxy; simp [ih ys (by simpa using h)]
+      · simp [hxy]
+
+/-- **String `==` agrees** for all pairs of strings (`$__Str$eq` vs JS string equality). -/
+theorem str_eq_agree (same : Bool) (a b : List Nat) (hs : same = true → a = b) :
+    wasmStrEq same a b = tsStrEq a b := by
+  unfold wasmStrEq tsStrEq
+  by_cases h1 : same = true
+  · simp [h1, hs h1, b2i]
+  · by_cases hl : a.length = b.length
+    · simp [h1, hl, wasmStrEqLoop_eq a b hl]
+    · have : a ≠ b := fun h => hl (by rw [h])
+      simp [h1, hl, this, b2i]
+
+example : wasmStrConcat [97, 98] [99] = [97, 98, 99] := by decide
 
 /-! ## 5. `Str.fromInt` -/
 
